@@ -16,19 +16,19 @@ ViewOK(e) == e.vmem = e.mem /\ e.vstr = e.str      \* the stream reconstructs th
 
 TInit == /\ t \in 1 .. NT /\ l = 2
          /\ LET e == Traces[t][1] IN
-              /\ e.hwmax = HwMax
+              /\ e.hwmax = HwMax /\ hwmode = e.hwmode /\ ok = TRUE
               /\ hw = e.hw /\ mem = e.mem /\ str = e.str
               /\ hw \in Fn /\ mem = hw /\ str = hw /\ ViewOK(e)
 
 TStep ==
   /\ l <= Len(Traces[t])
   /\ l' = l + 1 /\ t' = t
-  /\ hw' = Ev.hw /\ mem' = Ev.mem /\ str' = Ev.str
+  /\ hw' = Ev.hw /\ mem' = Ev.mem /\ str' = Ev.str /\ ok' = Ev.ok
   /\ hw' \in Fn /\ mem' \in Fn /\ str' \in Fn
   /\ ViewOK(Ev)
-  /\ \/ Ev.ev = "ws" /\ WriteStruct(Ev.v) /\ Ev.rep = str'
+  /\ \/ Ev.ev = "ws" /\ WriteStruct(Ev.v) /\ (ok' => Ev.rep = str')
      \/ Ev.ev = "as" /\ AssignStruct(Ev.v)
-     \/ Ev.ev = "wm" /\ WriteMember(Ev.m, Ev.v) /\ Ev.rep = mem'[Ev.m]
+     \/ Ev.ev = "wm" /\ WriteMember(Ev.m, Ev.v) /\ (ok' => Ev.rep = mem'[Ev.m])
      \/ Ev.ev = "am" /\ AssignMember(Ev.m, Ev.v)
      \/ Ev.ev = "rs" /\ ReadStruct /\ Ev.rep = str'
      \/ Ev.ev = "rm" /\ ReadMember(Ev.m) /\ Ev.rep = mem'[Ev.m]
